@@ -37,6 +37,13 @@ def tag_float(f):
     return {"t": "float", "v": float(f).hex()}
 
 
+def check_str(v):
+    for ch in v:
+        if 0xD800 <= ord(ch) <= 0xDFFF:
+            raise ValueError("lone surrogate in string")
+    return v
+
+
 def tag_py(v):
     if v is None:
         return {"t": "null"}
@@ -47,11 +54,11 @@ def tag_py(v):
     if isinstance(v, float):
         return tag_float(v)
     if isinstance(v, str):
-        return {"t": "str", "v": v}
+        return {"t": "str", "v": check_str(v)}
     if isinstance(v, list):
         return {"t": "list", "v": [tag_py(x) for x in v]}
     if isinstance(v, Pairs):
-        return {"t": "map", "v": [[k, tag_py(x)] for k, x in v.items]}
+        return {"t": "map", "v": [[check_str(k), tag_py(x)] for k, x in v.items]}
     if isinstance(v, dict):
         return {"t": "map", "v": [[k, tag_py(x)] for k, x in v.items()]}
     return {"t": "datetime", "v": str(v)}
@@ -83,7 +90,14 @@ RE_INF = re.compile(r"^[-+]?(\.inf|\.Inf|\.INF)$")
 RE_NAN = re.compile(r"^(\.nan|\.NaN|\.NAN)$")
 
 
+RE_AMBIG = re.compile(r"^[-+]?0[0-9_]+(\.[0-9]*)?([eE][-+]?[0-9]+)?$|^[-+]0[xo]|^[-+]?[0-9][0-9_]*_[0-9_]*$|^0b[01_]+$")
+
+
 def resolve_plain(s):
+    if RE_AMBIG.match(s):
+        # leading zeros (octal in YAML 1.1), signed hex/octal, digit separators, binary:
+        # YAML versions and libraries disagree; outside the agreed subset
+        return {"t": "datetime", "v": "ambiguous-number " + s}
     if RE_NULL.match(s):
         return {"t": "null"}
     if RE_BOOL.match(s):
@@ -119,7 +133,7 @@ def yaml_node(node):
                 # PyYAML's implicit resolver does not apply to quoted scalars; an explicit tag would
                 if node.tag != "tag:yaml.org,2002:str":
                     raise ValueError("explicit tag " + tag)
-        return {"t": "str", "v": node.value}
+        return {"t": "str", "v": check_str(node.value)}
     if isinstance(node, yaml.SequenceNode):
         return {"t": "list", "v": [yaml_node(n) for n in node.value]}
     if isinstance(node, yaml.MappingNode):
